@@ -18,7 +18,9 @@ ASSUMPTIONS = [
     '(sample chosen by the mathematical border rule, or cval) or, for order 1, lies inside [0, len-1] (linear '
     'interpolation); for orders >= 2 at fractional in-range coordinates the property is checked as the chain '
     '"spline_filter coefficients reproduce the samples" + "value = B-spline expansion of those coefficients at the '
-    'coordinate" (model) and cross-checked against scipy.ndimage.map_coordinates(mode=mirror)',
+    'coordinate" (model; that the model value IS the tensor-product B-spline sum with the weights and start '
+    'knots of the code is theorem C18_zoom_shift_is_tensor_spline) and cross-checked against '
+    'scipy.ndimage.map_coordinates(mode=mirror)',
     'fractional coordinates outside [0, len-1]: the statement names no value; the code applies the border rule to '
     'the nearest sample position and is compared with the model only',
     'tolerance 1e-9*max(1,max|f|) for every comparison (property, model, scipy cross-check)',
